@@ -279,9 +279,17 @@ contract('DocumentTemplate.DT_With.With.render', variant='C02',
          exit_hook=_with_exit, uses=[RB, GI])
 
 
+def _let_dict(E, env):
+    """the dictionary of let bindings: the entry Let.render pushed on the namespace (whatever the local is called)"""
+    md = env.locals['md']
+    data = E.heap[E.heap[md.addr].fields['_data'].addr]
+    top = data.items[-1] if data.items else None
+    return top if isinstance(top, VRef) else VRef(-1)
+
+
 def _let_iter(E, env, trace, fq, ordn):
     ob = lambda n, c, d: E.oblige(fq + '::C02.' + n, c, kind='trace', detail=d)  # noqa
-    d = env.locals['d']
+    d = _let_dict(E, env)
     sets = [t for t in trace if t[0] == 'dict_set' and t[1] == d.addr]
     ob('let.one_binding_per_pair', len(sets) == 1, 'each name=value pair binds exactly one name')
     looks = [t for t in trace if t[0] == 'contract-call' and t[1] == GI]
@@ -297,7 +305,8 @@ def _let_exit(E, outcome, value, env, prefix):
     if not ev:
         return
     st = list(ev[-1][3].get('md') or [])
-    ob('let.bindings_on_top_for_body', len(st) == 1 and st[0] is env.final.get('d'),
+    fresh = [v for v in env.final.values() if isinstance(v, VRef) and v.addr in E.heap and isinstance(E.heap[v.addr], HDict)]
+    ob('let.bindings_on_top_for_body', len(st) == 1 and any(st[0] is v or (isinstance(st[0], VRef) and st[0].addr == v.addr) for v in fresh),
        'the body is rendered with the let bindings as the top namespace entry')
 
 
